@@ -89,9 +89,32 @@ def setup(cfg):
     r.stub = RandomStub(ties=cfg.get('ties', False), max_expo=cfg.get('max_expo'),
                         max_uniform_per_step=cfg.get('max_unif', 2 + cfg.get('R', 1)))
     install_sim(r.stub, NPProxy())
+    # fast_SIR's constant-rate sampler: the real _truncated_exponential_ (int(t/T) -> mixed integer/real
+    # terms) is verified against its contract 0 <= x < T once, in C01; elsewhere it is replaced by that contract
+    global _ORIG_TRUNC
+    if _ORIG_TRUNC is None:
+        _ORIG_TRUNC = sim._truncated_exponential_
+    if cfg.get('trunc_stub', True):
+        def trunc(rate, T):
+            x = symx.ENG.var('x', lo=0)
+            if symx.ENG.mode == 'sym':
+                symx.ENG.assume(symx.lift(x) < symx.lift(T))
+            symx.ENG.log.append(('truncexp', rate, T, x))
+            return x
+        sim._truncated_exponential_ = trunc
+    else:
+        sim._truncated_exponential_ = _ORIG_TRUNC
+    from . import gillaw
+    if cfg.get('wstub'):
+        gillaw.install_weighted_choice_stub(sim)
+    else:
+        gillaw.uninstall_weighted_choice_stub(sim)
     r.EoN = EoN
     r.sim = sim
     return r
+
+
+_ORIG_TRUNC = None
 
 
 def trans_rate(r, u, v):
